@@ -24,6 +24,14 @@ TASKS = ["SSpawn", "SPoll", "SYield", "SComplete"]
 LAZY = ["Lazy", "PollLazy"]
 
 
+def forms_arg(r, cfg):
+    import vlib
+    fs = list(vlib.iter_printed(r.out_path, "FORMS"))
+    if not fs:
+        raise vlib.ToolError("TLC did not print the context forms for %s" % cfg)
+    return [fs[0]]
+
+
 def run(ctx):
     if ctx.quick:
         configs = [
@@ -41,8 +49,10 @@ def run(ctx):
             {"cfg": "Span_thorough_r3.cfg", "workers": 6, "actions": ACTIONS + TASKS + LAZY + ["Incoming"]},
             {"cfg": "Span_thorough_sim.cfg", "workers": 4, "simulate": (20000, 18)},
         ]
-    span_common.run_configs(ctx, "MCSpan", "c04_span", configs, ACTIONS, "C04")
+    span_common.run_configs(ctx, "MCSpan", "c04_span", configs, ACTIONS, "C04",
+                            harness_args=forms_arg)
     ctx.assumptions += [
+        "context forms (value, &C, Option<C>, Box<C>, Arc<C>, Box<dyn ErasedCtxt + Send + Sync>, the ambient runtime of emit::setup()..init_slot): every program runs through one form, the program number rotates through them; not every program through every form",
         "the random source yields no zero and no repeat (the statement's condition); ids are compared up to a bijection, so the draw order is free",
         "span guards are moved into the closure / async block of their frame, as the documentation of SpanGuard::new requires",
         "a panic is caught below everything the thread has entered (one catch level per thread); the level / error of the record a span emits while unwinding is C05's; no root frames between spans",
